@@ -32,3 +32,16 @@ contract(f"{RT}:Router.gn_forwarding_algorithm_selection", props=["C07"],
                   "annex_d_no_sender": "implies(request.area.angle == 0 and F_ego(self, request) < 0 and sender_gn_addr is None, result.value == 2)"},
          canary={"always_area": "result.value == 1"},
          **SI)
+
+
+def _ls_ghost(e, st, env):
+    from pyvc.values import TupleV
+    return st.ghost_append("ls_requests", TupleV([env["sought_gn_addr"], env["buffered_request"]]))
+
+
+# the location-service request path (timers, retransmission counters, symbolic-key buffers) is ASSUMED here: callers only
+# learn that a lookup for the address was started / joined with the request handed over for buffering
+contract(f"{RT}:Router.gn_ls_request", props=[], assumed=True,
+         shapes={"self": ROUTER, "sought_gn_addr": GNADDR, "buffered_request": T.opt(GNREQ)},
+         ghost_effect=_ls_ghost, ensures={"returns_none": "result is None"},
+         trusted=["Router.gn_ls_request: assumed contract at call sites (starts or joins a location-service lookup and buffers the request); its body is covered only by the lock-discipline obligations of C15"], **SB)
